@@ -74,7 +74,7 @@ RULE = ("streams: (trees-qc) random operation trees over {+,-,x,/,neg,number+,nu
         "object and vs finite differences at the current geometry; (atan2-band) atan2 trees with the result inside, at the "
         "edge of and outside 0.1 rad of +-pi/2; (stationary) products / quotients / dot / cross / norm with a factor that is "
         "exactly stationary (or zero) at the point; primitives additionally on lattice (axis-aligned) geometries and with "
-        "coordinates passed as plain arrays or unit-carrying CartesianCoordinates / Coordinates in Angstrom, nm, pm, bohr; each "
+        "coordinates passed as plain float64 / float32 / int64 / int32 arrays or unit-carrying CartesianCoordinates / Coordinates in Angstrom, nm, pm, bohr; each "
         "primitive object also: value independent of the geometry it saw first, same object invariant under translation and "
         "rotation; (pic-seq) AnyPIC.get_B at successive geometries (and after a failing request): B matrices handed out "
         "earlier stay the derivative at their geometry; IDPP / cconf value and gradient under rigid motion; (cpp-rb) mirror of "
@@ -920,7 +920,12 @@ CONTAINERS = {                      # name -> (class path, unit, length of 1 Ang
     "cartesian-nm": ("CartesianCoordinates", "nm", 0.1),
     "cartesian-pm": ("CartesianCoordinates", "pm", 100.0),
     "coordinates-a0": ("Coordinates", "a0", 1.0 / 0.529177210903),
+    # plain arrays of another dtype (used on integer-valued lattice geometries only, where the cast is exact)
+    "ndarray-int64": ("dtype", "int64", 1.0),
+    "ndarray-int32": ("dtype", "int32", 1.0),
+    "ndarray-float32": ("dtype", "float32", 1.0),
 }
+DTYPE_CONTAINERS = ["ndarray-int64", "ndarray-int32", "ndarray-float32"]
 
 
 def container_wrap(name):
@@ -929,6 +934,8 @@ def container_wrap(name):
     kind, unit, _ = CONTAINERS[name]
     if kind is None:
         return lambda y: np.array(y, float)
+    if kind == "dtype":      # the geometry itself (integer-valued) in the given dtype; displaced points stay float64
+        return lambda y: (np.array(y).astype(unit) if np.all(np.asarray(y) == np.round(y)) else np.array(y, float))
     if kind == "CartesianCoordinates":
         from autode.opt.coordinates import CartesianCoordinates
         return lambda y: CartesianCoordinates(np.array(y, float), units=unit)
@@ -1004,11 +1011,17 @@ def stream_primitives(ctx, P, full):
     seen_cls = set()
     placed = set()
     n_place = 0
-    unit_containers = [c_ for c_ in CONTAINERS if c_ != "ndarray"]
-    for cls, kw, X, tag in itertools.chain(primitive_cases(ctx, P, full), lattice_cases(ctx, P, full)):
+    unit_containers = [c_ for c_ in CONTAINERS if c_ != "ndarray" and c_ not in DTYPE_CONTAINERS]
+
+    def all_cases():
+        for case in primitive_cases(ctx, P, full):
+            yield case + (ctx.rng.choice(unit_containers) if ctx.rng.random() < 0.3 else "ndarray",)
+        for q, case in enumerate(lattice_cases(ctx, P, full)):
+            yield case + (ctx.rng.choice(unit_containers) if ctx.rng.random() < 0.3 else "ndarray",)
+            yield case + (DTYPE_CONTAINERS[q % 3],)      # the same integer-valued geometry as int64 / int32 / float32 array
+    for cls, kw, X, tag, container in all_cases():
         seen_cls.add(cls)
-        container = ctx.rng.choice(unit_containers) if ctx.rng.random() < 0.3 else "ndarray"
-        ctx.count("primitives", (cls, json.dumps(kw, sort_keys=True), X.round(6).tolist()),
+        ctx.count("primitives", (cls, json.dumps(kw, sort_keys=True), X.round(6).tolist(), container),
                   sample={"class": cls, "args": kw, "tag": tag})
         ctx.hist("primitives", f"{cls}:{tag.split('=')[0]}")
         ctx.hist("primitives", f"container:{container}")
@@ -1016,7 +1029,9 @@ def stream_primitives(ctx, P, full):
         try:
             fails, unstable, info = check_primitive(P, cls, kw, X, rs, container)
         except Exception as e:   # noqa: BLE001  a crash on a non-singular geometry is a failure to provide the derivative
-            nfind += report(ctx, f"primitive|{cls}|raises", f"{cls}({kw}) raised {type(e).__name__}: {e} at a non-singular geometry", rep)
+            key = f"primitive|{cls}|raises" + ("|integer-dtype coordinates" if "int" in container else "|float32 coordinates" if "float32" in container else "")
+            nfind += report(ctx, key, f"{cls}({kw}) [{tag}, coordinates as {container}] raised {type(e).__name__}: {e} at a non-singular "
+                            f"geometry", rep)
             continue
         if unstable:
             ctx.hist("primitives", "fd-unstable-entries-skipped")
